@@ -335,27 +335,103 @@ def _assign_counts(fn):
     return c
 
 
-def _root_local(fn, opnd, depth=0):
-    """the local an operand is a plain copy of, through temporaries that are assigned exactly once (None for anything else)"""
-    pl = opnd.get("copy") or opnd.get("move") if isinstance(opnd, dict) else None
-    if pl is None or pl["proj"]:
+def _proj_key(proj):
+    out = []
+    for pj in proj:
+        if "field" in pj:
+            out.append(("f", pj["field"]))
+        elif "downcast" in pj or "variant" in pj:
+            out.append(("v", pj.get("downcast", pj.get("variant"))))
+        elif "deref" in pj:
+            out.append(("d",))
+        else:
+            return None
+    return tuple(out)
+
+
+def _single_def(fn, l_):
+    """the one statement that assigns local l_ (whole), or None"""
+    found = None
+    for b_ in fn["blocks"]:
+        for s_ in b_["stmts"]:
+            if "assign" in s_ and not s_["assign"][0]["proj"] and s_["assign"][0]["local"] == l_:
+                if found is not None:
+                    return None
+                found = s_["assign"][1]
+    return found
+
+
+def _root_place(fn, pl, depth=0):
+    """canonical (base local, projection) of a place read: copies through single-assignment temporaries and shared references
+    (`_r = &place; .. *(_r)`) are followed back to the place they stand for. The base local has one fixed value (assigned once / never
+    reassigned argument, never mutably borrowed). None for anything else."""
+    if pl is None or depth > 8:
         return None
-    l_ = pl["local"]
     cnt = _assign_counts(fn)
-    if depth > 6:
+    l_ = pl["local"]
+    proj = list(pl["proj"])
+    fixed = cnt.get(l_, 0) == 1 or (cnt.get(l_, 0) == 0 and 1 <= l_ <= fn.get("arg_count", 0))
+    if not fixed:
         return None
     if cnt.get(l_, 0) == 1:
-        for b_ in fn["blocks"]:
-            for s_ in b_["stmts"]:
-                if "assign" in s_ and not s_["assign"][0]["proj"] and s_["assign"][0]["local"] == l_:
-                    rv = s_["assign"][1]
-                    if isinstance(rv, dict) and "use" in rv and ("copy" in rv["use"] or "move" in rv["use"]):
-                        r_ = _root_local(fn, rv["use"], depth + 1)
-                        if r_ is not None:
-                            return r_
-        return l_
-    if cnt.get(l_, 0) == 0 and 1 <= l_ <= fn.get("arg_count", 0):
-        return l_          # an argument that is never reassigned
+        rv = _single_def(fn, l_)
+        if isinstance(rv, dict):
+            src = None
+            if "use" in rv and ("copy" in rv["use"] or "move" in rv["use"]):
+                src = rv["use"].get("copy") or rv["use"].get("move")
+            elif "ref" in rv and not rv["ref"].get("mut") and proj and "deref" in proj[0]:
+                src = rv["ref"]["place"]
+                proj = proj[1:]
+            if src is not None:
+                r_ = _root_place(fn, {"local": src["local"], "proj": list(src["proj"]) + proj}, depth + 1)
+                if r_ is not None:
+                    return r_
+                return None if ("ref" in rv) else (l_, _proj_key(proj)) if _proj_key(proj) is not None else None
+    k = _proj_key(proj)
+    return (l_, k) if k is not None else None
+
+
+def _root_local(fn, opnd, depth=0):
+    """identity of the value an operand reads (see _root_place); None for constants and anything that may change"""
+    pl = (opnd.get("copy") or opnd.get("move")) if isinstance(opnd, dict) else None
+    return _root_place(fn, pl) if pl is not None else None
+
+
+def _operand_range(fn, opnd, depth=0):
+    """(lo, hi) of an integer operand when it is a constant, or a value widened from a narrower unsigned type
+    (`i32::from(u16)`, `x as i32` from u8/u16/bool) through single-assignment temporaries; None otherwise"""
+    c = _const_int(opnd) if isinstance(opnd, dict) else None
+    if c is not None:
+        return (c, c)
+    pl = (opnd.get("copy") or opnd.get("move")) if isinstance(opnd, dict) else None
+    if pl is None or pl["proj"] or depth > 6:
+        return None
+    l_ = pl["local"]
+    if _assign_counts(fn).get(l_, 0) != 1:
+        return None
+    rv = _single_def(fn, l_)
+    if isinstance(rv, dict):
+        if "use" in rv:
+            return _operand_range(fn, rv["use"], depth + 1)
+        if "cast" in rv:
+            c_ = rv["cast"]
+            src = c_[1] if isinstance(c_, list) and len(c_) > 1 else (c_.get("operand") if isinstance(c_, dict) else None)
+            spl = (src.get("copy") or src.get("move")) if isinstance(src, dict) else None
+            if spl is not None and not spl["proj"]:
+                ty = fn["locals"][spl["local"]]["ty"]
+                if ty.get("k") == "int" and not ty.get("signed") and not ty.get("ptr") and ty.get("bits", 64) <= 32:
+                    return (0, (1 << ty["bits"]) - 1)
+                if ty.get("k") == "bool":
+                    return (0, 1)
+        return None
+    # result of a call: the widening From impls
+    for b_ in fn["blocks"]:
+        t_ = b_["term"] or {}
+        if "call" in t_ and t_["call"]["dest"]["local"] == l_ and not t_["call"]["dest"]["proj"]:
+            cal = t_["call"]["callee"]
+            m = re.match(r"^core::convert::num::<impl core::convert::From<(u8|u16|u32|bool)> for (i16|i32|i64|i128|isize|u16|u32|u64|u128|usize)>::from$", cal.get("resolved") or "")
+            if m:
+                return (0, {"u8": 255, "u16": 65535, "u32": (1 << 32) - 1, "bool": 1}[m.group(1)])
     return None
 
 
@@ -420,6 +496,154 @@ def lower_bound_from_guards(fn, blk, root):
     return best
 
 
+def _base_local(fn, opnd, depth=0):
+    """the (possibly mutable) local whose current value an operand reads, through single-assignment copy temporaries"""
+    pl = (opnd.get("copy") or opnd.get("move")) if isinstance(opnd, dict) else None
+    if pl is None or pl["proj"] or depth > 6:
+        return None
+    l_ = pl["local"]
+    if _assign_counts(fn).get(l_, 0) == 1:
+        rv = _single_def(fn, l_)
+        if isinstance(rv, dict) and "use" in rv and ("copy" in rv["use"] or "move" in rv["use"]):
+            src = rv["use"].get("copy") or rv["use"].get("move")
+            if not src["proj"]:
+                r_ = _base_local(fn, rv["use"], depth + 1)
+                return r_ if r_ is not None else l_
+    return l_
+
+
+def _region(fn, start, site, avoid):
+    """blocks on some path start -> site that does not pass through `avoid`"""
+    cfg = cfg_of(fn)
+    fwd = cfg.reachable(start, avoid=[avoid])
+    back = set()
+    st_ = [site]
+    while st_:
+        b_ = st_.pop()
+        if b_ in back or b_ == avoid:
+            continue
+        back.add(b_)
+        st_.extend(cfg.pred[b_])
+    return fwd & back
+
+
+def _writes_local(fn, blocks, l_, skip_block_term=None):
+    for b_ in blocks:
+        bb = fn["blocks"][b_]
+        for s_ in bb["stmts"]:
+            if "assign" in s_:
+                pl, rv = s_["assign"]
+                if pl["local"] == l_:
+                    return True
+                if isinstance(rv, dict):
+                    for k in ("ref", "addr_of"):
+                        if k in rv and rv[k]["place"]["local"] == l_ and rv[k].get("mut", True):
+                            return True
+        t_ = bb["term"] or {}
+        if "call" in t_ and t_["call"]["dest"]["local"] == l_:
+            return True
+    return False
+
+
+def less_than_guards(fn, blk, base):
+    """[(guard block, successor, other operand)] for branch edges dominating `blk` on which `base < other` holds, `base` (a local,
+    possibly mutable) being written nowhere between that edge and `blk`"""
+    cfg = cfg_of(fn)
+    out = []
+    for d_ in range(len(fn["blocks"])):
+        b_ = fn["blocks"][d_]
+        t_ = b_["term"] or {}
+        if "switch" not in t_ or d_ == blk or not cfg.dominates(d_, blk):
+            continue
+        dpl = t_["switch"]["discr"].get("copy") or t_["switch"]["discr"].get("move")
+        if dpl is None or dpl["proj"]:
+            continue
+        cmp_ = None
+        for s_ in b_["stmts"]:
+            if "assign" in s_ and not s_["assign"][0]["proj"] and s_["assign"][0]["local"] == dpl["local"]:
+                rv = s_["assign"][1]
+                if isinstance(rv, dict) and "bin" in rv and rv["bin"][0] in ("Lt", "Gt", "Le", "Ge"):
+                    cmp_ = rv["bin"]
+        if cmp_ is None:
+            continue
+        op, x, y = cmp_
+        targets = t_["switch"]["targets"]
+        other = t_["switch"]["otherwise"]
+        vals = {v for v, _tb in targets}
+        edges = [(bool(v), tb) for v, tb in targets]
+        if vals == {0}:
+            edges.append((True, other))
+        elif vals == {1}:
+            edges.append((False, other))
+        for truth, succ in edges:
+            if not (succ == blk or cfg.dominates(succ, blk)) or cfg.pred[succ] != [d_] or ([tb for _v, tb in targets] + [other]).count(succ) != 1:
+                continue
+            # which strict inequality does this edge establish?
+            lt = None
+            if (op, truth) in (("Lt", True), ("Ge", False)):
+                lt = (x, y)
+            elif (op, truth) in (("Gt", True), ("Le", False)):
+                lt = (y, x)
+            if lt is None or _base_local(fn, lt[0]) != base:
+                continue
+            reg = _region(fn, succ, blk, d_)
+            if _writes_local(fn, reg, base):
+                continue
+            out.append((d_, succ, lt[1]))
+    return out
+
+
+LEN_FNS = ("alloc::vec::Vec::<T, A>::len", "core::slice::<impl [T]>::len")
+KEEP_LEN = re.compile(r"::(index_mut|index|get_mut|get|iter_mut|iter|as_mut_slice|as_slice|len|is_empty|first|last|first_mut|last_mut|swap|sort\w*|reverse|fill)$")
+
+
+def guarded_index(fn, blk):
+    """`v[i]` (Index / IndexMut on a Vec or slice) whose index was compared with `v.len()` on a dominating edge: i < v.len(), neither i nor
+    the length of v changing between the comparison and the access"""
+    t_ = fn["blocks"][blk]["term"] or {}
+    if "call" not in t_ or len(t_["call"]["args"]) < 2:
+        return False
+    a0, a1 = t_["call"]["args"][0], t_["call"]["args"][1]
+    base = _base_local(fn, a1)
+    l0 = (a0.get("move") or a0.get("copy") or {}).get("local") if isinstance(a0, dict) else None
+    if base is None or l0 is None:
+        return False
+    vec = ref_target_of(fn, l0)
+    for d_, succ, bound in less_than_guards(fn, blk, base):
+        bl = (bound.get("move") or bound.get("copy")) if isinstance(bound, dict) else None
+        if bl is None or bl["proj"] or _assign_counts(fn).get(bl["local"], 0) != 1:
+            continue
+        # the bound is the result of len() on the same collection, taken right before the comparison
+        src = None
+        for bi, b_ in enumerate(fn["blocks"]):
+            tt = b_["term"] or {}
+            if "call" in tt and tt["call"]["dest"]["local"] == bl["local"] and not tt["call"]["dest"]["proj"]:
+                src = (bi, tt["call"])
+        if src is None or (src[1]["callee"].get("resolved") or src[1]["callee"].get("path")) not in LEN_FNS or src[1]["target"] != d_:
+            continue
+        la = src[1]["args"][0]
+        ll = (la.get("move") or la.get("copy") or {}).get("local") if isinstance(la, dict) else None
+        if ll is None or ref_target_of(fn, ll) != vec:
+            continue
+        # nothing between the comparison and the access may change the length of the collection
+        okk = True
+        for rb in _region(fn, succ, blk, d_):
+            tt = fn["blocks"][rb]["term"] or {}
+            if "call" in tt and rb != blk:
+                for a_ in tt["call"]["args"]:
+                    al = (a_.get("move") or a_.get("copy") or {}).get("local") if isinstance(a_, dict) else None
+                    if al is not None and ref_target_of(fn, al) == vec and not KEEP_LEN.search(tt["call"]["callee"].get("resolved") or tt["call"]["callee"].get("path") or ""):
+                        okk = False
+        if okk:
+            return True
+    return False
+
+
+def ref_target_of(fn, l_):
+    from .clients import ref_target
+    return ref_target(fn, l_)
+
+
 def guarded_arith(fn, blk, kind, detail):
     """an unsigned `a - c` / `x % d` / `x / d` site that is provably fine because a branch on the way to it established a >= c (d >= 1)"""
     t_ = fn["blocks"][blk]["term"] or {}
@@ -433,6 +657,19 @@ def guarded_arith(fn, blk, kind, detail):
         if c_ is None or root is None:
             return False
         return lower_bound_from_guards(fn, blk, root) >= c_
+    if a_.get("kind") == "Overflow" and d_.get("op") == "Add" and re.search(r":(u\d+|usize)$", detail or "") and _const_int(d_.get("b")) == 1:
+        base = _base_local(fn, d_.get("a"))
+        # a < X on a dominating edge (a unchanged since): a + 1 <= X fits the type
+        return base is not None and bool(less_than_guards(fn, blk, base))
+    m_ = re.search(r":(i)(\d+)$", detail or "")
+    if a_.get("kind") == "Overflow" and d_.get("op") in ("Sub", "Add") and m_:
+        ra, rb = _operand_range(fn, d_.get("a")), _operand_range(fn, d_.get("b"))
+        if ra is None or rb is None:
+            return False
+        bits = int(m_.group(2))
+        lo = ra[0] - rb[1] if d_["op"] == "Sub" else ra[0] + rb[0]
+        hi = ra[1] - rb[0] if d_["op"] == "Sub" else ra[1] + rb[1]
+        return -(1 << (bits - 1)) <= lo and hi <= (1 << (bits - 1)) - 1
     if a_.get("kind") in ("DivisionByZero", "RemainderByZero"):
         # assert(!(divisor == 0)): the divisor is the operand of the comparison that feeds the assert
         cpl = (a_.get("cond") or {}).get("move") or (a_.get("cond") or {}).get("copy")
@@ -481,7 +718,7 @@ def ui_panic_rule(rep, prog):
             if shape is not None:
                 shape_moved[shape] = shape_moved.get(shape, 0) + 1
                 continue
-            if guarded_arith(fn, blk, kind, detail):
+            if guarded_arith(fn, blk, kind, detail) or (kind == "call" and detail == "slice-index" and guarded_index(fn, blk)):
                 rep.info("%s: %s %s at %s is discharged by a dominating comparison of the same value" % (pub_fn(path), kind, detail, site_where(sp)))
                 continue
             rep.violation("R2", "%s:%s:%s" % (pub_fn(path), kind, detail), "%s: unguarded panic site %s %s at %s is reachable from an operator action / redraw" % (pub_fn(path), kind, detail, site_where(sp)), site=site_where(sp))
